@@ -76,6 +76,8 @@ def rename(desc, style, rng):
     names = [d[0] for d in desc]
     if style == "frontend":
         return desc
+    if style == "zeropad":
+        return zeropad_names(desc, rng)
     if style == "generator":
         kind = "basic"
         m = {n: "%s_block_%d" % (kind, i) for i, n in enumerate(names)}
@@ -441,3 +443,39 @@ def loop_facts(desc):
         if len(latches) >= 2:
             facts["multi_latch"] += 1
     return facts
+
+
+def gen_open(rng, n):
+    """A flat graph of any shape with at most two distinct successors per block:
+    no closedness required (unreachable blocks, dead cycles, several heads)."""
+    names = [str(i) for i in range(n)]
+    desc = []
+    for x in names:
+        k = rng.weighted([(0, 2), (1, 5), (2, 3)])
+        tg = []
+        for _ in range(k):
+            t = rng.choice(names)
+            if t not in tg:
+                tg.append(t)
+        desc.append([x, rng.choice(["basic", "basic", "bytecode"]), tg])
+    return desc
+
+
+def zeropad_names(desc, rng):
+    """Name style "zeropad": some names differ from others only by leading zeros
+    ('1' and '01'), which any order derived from the numeric value cannot separate."""
+    names = [d[0] for d in desc]
+    m = {}
+    used = set()
+    for i, nme in enumerate(names):
+        base = str(i // 2 if i else 0)
+        cand = base
+        while cand in used:
+            cand = "0" + cand
+        if i == 0:
+            cand = "0"
+            if cand in used:
+                cand = "00"
+        used.add(cand)
+        m[nme] = cand
+    return [[m[a], k, [m[t] for t in tg]] for a, k, tg in desc]
